@@ -32,10 +32,30 @@ DISPATCH = {
 }
 
 
+def available_dispatch():
+	"""Restrict every setting to optional features this CPU really has (NumPy refuses / warns about others), drop settings that
+	would be identical to an earlier one."""
+	import subprocess, json
+	try:
+		p = subprocess.run(['/venv/bin/python', '-c', 'import json; from numpy.core._multiarray_umath import __cpu_features__ as f, __cpu_dispatch__ as d; print(json.dumps([x for x in d if f.get(x)]))'],
+		                   capture_output=True, text=True, timeout=120, env={k: v for k, v in __import__('os').environ.items() if k != 'NPY_DISABLE_CPU_FEATURES'})
+		have = set(json.loads(p.stdout))
+	except Exception:
+		have = set()
+	out, seen = {}, set()
+	for name, feats in DISPATCH.items():
+		fl = ' '.join(x for x in feats.split() if x in have)
+		if fl in seen:
+			continue
+		seen.add(fl)
+		out[name] = fl
+	return out
+
+
 def shards(tier, seed):
 	out = []
 	nw = 10 if tier == 'quick' else 40
-	for dname, feats in DISPATCH.items():
+	for dname, feats in available_dispatch().items():
 		for threads in ([1, 16] if tier == 'quick' else [1, 4, 16]):
 			env = {'OMP_NUM_THREADS': str(threads)}
 			if feats:
@@ -228,7 +248,7 @@ def finalize(merged, tier, seed, inconclusive):
 	else:
 		inconclusive.append('fewer than two dispatch/thread settings produced digests')
 	feats = merged['notes'].get('cpu_features_in_effect', {})
-	if len({tuple(v) for v in feats.values()}) < 2:
+	if len(available_dispatch()) >= 2 and len({tuple(v) for v in feats.values()}) < 2:
 		inconclusive.append('NPY_DISABLE_CPU_FEATURES had no effect: only one dispatch setting was really in effect')
 	merged['notes'].pop('digest_lists', None)
 	merged['notes'].pop('digests', None)
